@@ -342,6 +342,140 @@ def parse_report(page, ev):
             cur.extend(int(x, 16) for x in h.group(1).split())
     ev["report_msgs"] = msgs
 
+def session_concurrent(ctx, binary, n, rng):
+    """Two clients at the same time through one proxy process (ProxyMulti.tla, Concurrent = TRUE).  Returns one event per
+    connection - each relay is judged exactly like a single session's - and a note about the report: all connections
+    tee into the one parser, so the report may list a splice of the two streams (a hazard of the design that C19, stated
+    for one session, does not cover; it is recorded, not judged)."""
+    d = ctx.path("sess%d" % n)
+    os.makedirs(d)
+    up = socket.socket()
+    up.setsockopt(socket.SOL_SOCKET, socket.SO_REUSEADDR, 1)
+    up.bind(("127.0.0.1", 0))
+    up.listen(4)
+    pport, cport = free_port(), free_port()
+    cfg = os.path.join(d, "proxy.json")
+    with open(cfg, "w") as f:
+        json.dump({"remote_host": "127.0.0.1:%d" % up.getsockname()[1], "proxy_host": "127.0.0.1", "proxy_port": pport,
+                   "control_host": "127.0.0.1", "control_port": cport, "record_messages": True,
+                   "message_log_directory": os.path.join(d, "msglog")}, f)
+    errf = open(os.path.join(d, "stderr"), "wb")
+    outf = open(os.path.join(d, "stdout"), "wb")
+    p = subprocess.Popen([binary, "-c", cfg], cwd=d, stdout=outf, stderr=errf)
+    conns = []
+    note = dict(reported=0, spliced=0)
+    page_ev = dict(report_ok=False, report_msgs=[], slot_client=[], slot_server=[], slot_messages=[])
+    try:
+        up.settimeout(10)
+        for k in range(2):
+            cli = None
+            for _ in range(200):
+                try:
+                    cli = socket.create_connection(("127.0.0.1", pport), timeout=2)
+                    break
+                except OSError:
+                    if p.poll() is not None:
+                        break
+                    time.sleep(0.025)
+            if cli is None:
+                raise vlib.Inconclusive("cannot connect to the proxy")
+            srv, _ = up.accept()     # the proxy dials upstream as it accepts: the k-th upstream connection belongs to the k-th client
+            cli.settimeout(0.2)
+            srv.settimeout(0.2)
+            conns.append(dict(cli=cli, srv=srv, c2s=client_stream(rng, "many") + client_stream(rng, "many"), s2c=b"ICY 200 OK\r\n\r\n" + bytes(rng.getrandbits(8) for _ in range(rng.randint(0, 200))),
+                              s_got=bytearray(), c_got=bytearray()))
+        stop = threading.Event()
+
+        def pump(sock, data, seed):
+            r = random.Random(seed)
+            i = 0
+            while i < len(data):
+                k = r.randint(1, r.choice([1, 7, 60, 300]))
+                try:
+                    sock.sendall(data[i:i + k])
+                except OSError:
+                    return
+                i += k
+                if r.random() < 0.3:
+                    time.sleep(r.random() * 0.002)
+
+        def drain(sock, buf, want):
+            while not stop.is_set() and len(buf) < want:
+                try:
+                    b = sock.recv(65536)
+                    if not b:
+                        return
+                    buf.extend(b)
+                except socket.timeout:
+                    continue
+                except OSError:
+                    return
+        ts = []
+        for c in conns:
+            ts += [threading.Thread(target=pump, args=(c["cli"], c["c2s"], rng.getrandbits(30))),
+                   threading.Thread(target=pump, args=(c["srv"], c["s2c"], rng.getrandbits(30))),
+                   threading.Thread(target=drain, args=(c["srv"], c["s_got"], len(c["c2s"]))),
+                   threading.Thread(target=drain, args=(c["cli"], c["c_got"], len(c["s2c"])))]
+        for t in ts:
+            t.start()
+        deadline = time.time() + 20
+        done = lambda: all(len(c["s_got"]) >= len(c["c2s"]) and len(c["c_got"]) >= len(c["s2c"]) for c in conns)   # noqa
+        mid = None
+        while time.time() < deadline and not done() and p.poll() is None:
+            if mid is None and all(len(c["s_got"]) * 5 >= len(c["c2s"]) * 2 for c in conns):
+                # a look at the report while both clients are in full flow
+                mid = dict(report_msgs=[])
+                try:
+                    parse_report(urllib.request.urlopen("http://127.0.0.1:%d/status/report" % cport, timeout=10).read().decode("utf-8", errors="replace"), mid)
+                except Exception:          # noqa
+                    pass
+                for m in mid.get("report_msgs", []):
+                    note["reported"] += 1
+                    if not any(bytes(m) in bytes(c["c2s"]) for c in conns):
+                        note["spliced"] += 1
+            time.sleep(0.01)
+        stalled = not done() and p.poll() is None
+        time.sleep(0.15)
+        stop.set()
+        for t in ts:
+            t.join(5)
+        alive = p.poll() is None
+        if alive:
+            try:
+                page = urllib.request.urlopen("http://127.0.0.1:%d/status/report" % cport, timeout=10).read().decode("utf-8", errors="replace")
+                page_ev["report_ok"] = True
+                parse_report(page, page_ev)
+            except Exception as e:          # noqa
+                page_ev["report_error"] = repr(e)[:200]
+            alive = p.poll() is None
+    finally:
+        for c in conns:
+            for x in (c["cli"], c["srv"]):
+                try:
+                    x.close()
+                except Exception:
+                    pass
+        up.close()
+        if p.poll() is None:
+            p.kill()
+        p.wait()
+        errf.close()
+        outf.close()
+    streams = [bytes(c["c2s"]) for c in conns]
+    for m in page_ev["report_msgs"]:
+        note["reported"] += 1
+        if not any(bytes(m) in st for st in streams):
+            note["spliced"] += 1
+    evs = []
+    for c in conns:
+        ev = dict(kind="concurrent", alive=alive, stalled=stalled, report_ok=page_ev["report_ok"], report_msgs=[],
+                  slot_client=page_ev["slot_client"], slot_server=page_ev["slot_server"], slot_messages=page_ev["slot_messages"],
+                  c2s=list(c["c2s"]), s2c=list(c["s2c"]), s_got=list(c["s_got"]), c_got=list(c["c_got"]), multi=True)
+        if not alive:
+            ev["crash"] = open(os.path.join(d, "stderr"), "rb").read()[-1500:].decode(errors="replace")
+        evs.append(ev)
+    return evs, note
+
 
 def run(ctx, replay):
     for cfg in ("Proxy_FALSE.cfg",):
@@ -349,6 +483,14 @@ def run(ctx, replay):
     r = ctx.tlc_mc("Proxy", "Proxy_TRUE.cfg", timeout=600, must_hold=False)
     if r["ok"]:
         raise vlib.Inconclusive("Proxy.tla with a crashing parser should violate StaysAlive (vacuity guard)")
+    # several connections sharing the one parser: sequential connections behave like one session; overlapping ones keep
+    # every relay exact (and complete) but let the report show a splice - the model says so, the sessions below show it
+    ctx.tlc_mc("ProxyMulti", "ProxyMulti_seq.cfg", timeout=600)
+    ctx.tlc_mc("ProxyMulti", "ProxyMulti_conc_relay.cfg", timeout=600)
+    for cfg in ("ProxyMulti_conc.cfg", "ProxyMulti_seq_straddle.cfg"):
+        r = ctx.tlc_mc("ProxyMulti", cfg, timeout=600, must_hold=False)
+        if r["ok"] or r["violated"] != "ReportContiguous":
+            raise vlib.Inconclusive("%s should violate ReportContiguous and nothing else (got %s)" % (cfg, r["violated"]))
     binary = build_binary(ctx, "proxy")
     rng = random.Random(ctx.seed * 104729 + 19)
     kinds = ["valid", "malformed", "html", "random", "mixed", "many", "bulk", "burst", "bigburst", "bulk", "mixed", "html", "burst",
@@ -359,13 +501,24 @@ def run(ctx, replay):
     events = []
     for n in range(nsess):
         events.append(session(ctx, binary, n, rng, kinds[n % len(kinds)], cert))
+    multi = dict(sessions=0, reported=0, spliced=0)
+    for k in range(4 if ctx.thorough() else 1):
+        evs, note = session_concurrent(ctx, binary, 500 + k, rng)
+        events += evs
+        multi["sessions"] += 1
+        multi["reported"] += note["reported"]
+        multi["spliced"] += note["spliced"]
+    ctx.extra["concurrent_clients"] = multi
+    if multi["spliced"]:
+        vlib.log("NOTE C19: with two clients at once %d of %d messages in the report are a splice of the two streams "
+                 "(ProxyMulti.tla: ReportContiguous fails when connections overlap; outside C19, which is stated for one session)" % (multi["spliced"], multi["reported"]))
     trace = ctx.path("c19.ndjson")
     vlib.write_ndjson(trace, [{k: v for k, v in e.items() if k not in ("crash", "report_error", "kind")} for e in events])
     res = ctx.tlc_trace("C19_Trace", "C19_Trace.cfg", trace, timeout=1500)
     ctx.traces += len(events)
     for e in events:
         ctx.count_case((e["kind"], e["c2s"], e["s2c"]), nontrivial=len(e["c2s"]) > 0)
-    ctx.extra["sessions_by_kind"] = {k: sum(1 for e in events if e["kind"] == k) for k in set(kinds)}
+    ctx.extra["sessions_by_kind"] = {k: sum(1 for e in events if e["kind"] == k) for k in set(kinds) | {"concurrent"}}
     ctx.extra["bytes_relayed"] = sum(len(e["c2s"]) + len(e["s2c"]) for e in events)
     ctx.extra["messages_listed_in_reports"] = sum(len(e["report_msgs"]) for e in events)
     drift = res["badk"].get("drift", [])
@@ -392,7 +545,7 @@ def run(ctx, replay):
         rule="one case = one TCP loopback session through the built proxy binary (own process, generated config, harness-owned upstream server and client): client and "
              "server streams with seeded chunkings (1 byte .. 5000 bytes) in both directions at once; client streams of valid frames, CRC-valid frames with malformed content "
              "(short MSM, all-ones / all-zero payloads), random bytes, payloads and junk spelling <script>, </pre>, <, >, more than 20 messages, a partial frame at the end; "
-             "/status/report fetched at quiescence; non-trivial = non-empty client stream",
+             "/status/report fetched at quiescence; sessions that end (a peer sends its last bytes and leaves; TCP, TLS 1.2 with data and close_notify in one segment, TLS 1.3), a second client after the first, the message log off (-q, /status/loglevel/0), and two clients at once (each relay judged, the shared report only for HTML safety); non-trivial = non-empty client stream",
         assumptions=["the three traffic-derived slots are cut out of the page with the literal text of the report template",
                      "listed messages are read back from the hex dumps; expected messages from FramerCore (real CRC) on the client stream without end of input",
                      "process death or a relay stalled for 20 s is the 'stops the relayed stream' violation"],
